@@ -76,15 +76,13 @@ Theorem C11_map_string_null_refuted :
   sonic_unmarshal h1 Opt opts_std (TMap KStr TStr) (b "{""k"":null}") VNil = Err.
 Proof. exact map_string_null_refuted. Qed.
 
-Theorem C11_u32_key_refuted :
-  sonic_unmarshal h1 Jit opts_std (TMap (KInt U32) (TInt I64)) (b "{""4294967296"":1}") VNil = Ok (VMap [(VInt 0, VInt 1)]) /\
-  sonic_unmarshal h1 Opt opts_std (TMap (KInt U32) (TInt I64)) (b "{""4294967296"":1}") VNil = Err.
-Proof. exact u32_key_refuted. Qed.
-
-Theorem C11_f32_edge_refuted :
+(* repaired divergences (afd5482, 39e707a) now agree *)
+Theorem C11_u32_key_and_f32_edge_agree :
+  sonic_unmarshal h1 Jit opts_std (TMap (KInt U32) (TInt I64)) (b "{""4294967296"":1}") VNil = Err /\
+  sonic_unmarshal h1 Opt opts_std (TMap (KInt U32) (TInt I64)) (b "{""4294967296"":1}") VNil = Err /\
   sonic_unmarshal h1 Jit opts_std TF32 (b "3.4028235e38") (VFlt 0) = Ok (VFlt 2139095039) /\
-  sonic_unmarshal h1 Opt opts_std TF32 (b "3.4028235e38") (VFlt 0) = Err.
-Proof. exact f32_edge_refuted. Qed.
+  sonic_unmarshal h1 Opt opts_std TF32 (b "3.4028235e38") (VFlt 0) = Ok (VFlt 2139095039).
+Proof. exact u32_key_and_f32_edge_agree. Qed.
 
 Theorem C11_ptrptr_null_refuted :
   sonic_unmarshal h1 Jit opts_std (TPtr (TPtr TUnm)) (b "null") VNil = Err /\
